@@ -587,3 +587,54 @@ func (w *World) QuitNodeOnly(k *pk.Key) *nat.CallRecord {
 	own := w.WalletOf(k)
 	return w.E.Call(utils.NodeManagerContractAddress, node_manager.QUIT_NODE, peerArgs(k.PubHex(), own.Addr), pk.Single(own))
 }
+
+// ---------------------------------------------------------------------------------------------
+// peer-pool members that are not (or no longer) consensus validators, without closing the epoch
+
+// PoolStatusOf reads the committed pool status of k in the current view.
+func (w *World) PoolStatusOf(k *pk.Key) (node_manager.Status, bool) {
+	st, ok := w.poolStatus()[k.PubHex()]
+	return st, ok
+}
+
+// RegisterCandidateOnly registers k (by wallet, nil = itself) and lets validators approve until it is
+// in the pool with CandidateStatus; no commitDpos, so k is not a consensus validator.
+func (w *World) RegisterCandidateOnly(k, wallet *pk.Key) error {
+	reg := k
+	if wallet != nil {
+		reg = wallet
+	}
+	rec := w.E.Call(utils.NodeManagerContractAddress, node_manager.REGISTER_CANDIDATE, peerArgs(k.PubHex(), reg.Addr), pk.Single(reg))
+	if !rec.Ok {
+		return fmt.Errorf("registerCandidate: %s", rec.Err)
+	}
+	for _, v := range w.Vals {
+		rec := w.E.Call(utils.NodeManagerContractAddress, node_manager.APPROVE_CANDIDATE, peerArgs(k.PubHex(), v.Addr), pk.Single(v))
+		if !rec.Ok {
+			return fmt.Errorf("approveCandidate: %s", rec.Err)
+		}
+		if st, ok := w.PoolStatusOf(k); ok && st == node_manager.CandidateStatus {
+			return nil
+		}
+	}
+	return fmt.Errorf("candidate never entered the pool")
+}
+
+// BlackNodeOnly lets validators blacklist pool member k (blackNode) until its status is BlackStatus.
+// For a candidate this does not close the epoch.
+func (w *World) BlackNodeOnly(k *pk.Key) error {
+	for _, v := range w.Vals {
+		sink := common.NewZeroCopySink(nil)
+		sink.WriteVarUint(1)
+		sink.WriteString(k.PubHex())
+		sink.WriteVarBytes(v.Addr[:])
+		rec := w.E.Call(utils.NodeManagerContractAddress, node_manager.BLACK_NODE, sink.Bytes(), pk.Single(v))
+		if !rec.Ok {
+			return fmt.Errorf("blackNode: %s", rec.Err)
+		}
+		if st, ok := w.PoolStatusOf(k); ok && st == node_manager.BlackStatus {
+			return nil
+		}
+	}
+	return fmt.Errorf("peer never blacklisted")
+}
